@@ -19,7 +19,7 @@ BEFORE = {
     'C06-5': 'missed like C06-3 (nth on the owning iterators)',
     'C06-4': 'missed like C15-3 (one-sided drop glue)',
     'C11-4': 'missed (needs a value type narrower than a pointer whose estimate depends on its state): added the dn instantiation',
-    'C10-4': 'not detected, by decision: manifests only with a size estimator that returns different values for the same unchanged value (outside the properties; DESIGN 0.2)',
+    'C10-4': 'no failing input, by decision: manifests only with a size estimator that returns different values for the same unchanged value (outside the properties; DESIGN 0.2); reported as a broken tie once Layer P2 re-translated the body of insert',
 }
 P2OFF = json.load(open('/root/p2_offline.json')) if os.path.exists('/root/p2_offline.json') else {}
 P2_MISSING_IN = ('e54d9e6', '498200c', '6deceb7')
